@@ -207,12 +207,30 @@ func RunLockstep(c *Case, pick func(n int) int, hk *Hooks) *Outcome {
 
 	// pending engine requests by node id (FIFO)
 	pend := map[string][]bpmn.TaskTrace{}
+	kindOf := map[string]string{}
+	prog.G.AllNodes(func(n *gen.Node, _ *gen.Graph) {
+		if n.Kind == gen.KTask {
+			k := n.TaskKind
+			if k == "" {
+				k = "task"
+			}
+			kindOf[n.ID] = k
+		}
+	})
+	wrongType := ""
 	takeNew := func() []string {
 		var ids []string
 		for _, tt := range in.NewTasks() {
 			id := elemID(tt.GetActivity().Element())
 			pend[id] = append(pend[id], tt)
 			ids = append(ids, id)
+			// the request names the activity kind of the element it is for
+			// (wherever the element sits: process level or inside sub-processes)
+			if k, ok := kindOf[id]; ok && wrongType == "" {
+				if got := string(tt.GetActivity().Type()); !strings.EqualFold(got, k) {
+					wrongType = fmt.Sprintf("request for <%s id=%q> carries activity type %q", k, id, got)
+				}
+			}
 		}
 		sort.Strings(ids)
 		return ids
@@ -339,6 +357,9 @@ func RunLockstep(c *Case, pick func(n int) int, hk *Hooks) *Outcome {
 	}
 
 	// ---- end state ------------------------------------------------------------
+	if wrongType != "" {
+		return fail("activity-type", wrongType, nil)
+	}
 	out.Done, out.Stuck = m.Done(), m.StuckBySpec()
 	wctx, wcancel := context.WithCancel(context.Background())
 	wres := make(chan bool, 1)
